@@ -194,7 +194,7 @@ pub fn run_sched_plans(rep: &mut Report, id: &str, cases: Vec<SchedCase>, phases
         for ph in phases.iter()
         {
             let deadline = Instant::now() + Duration::from_millis((ph.secs * 1000.0) as u64);
-            let cfg = ExploreCfg { por: ph.por, bound: ph.bound, threads: threads(), deadline, max_schedules: 100_000_000, oracles: or.clone(), c03, c04_history: id == "C04" };
+            let cfg = ExploreCfg { snapshots: false, por: ph.por, bound: ph.bound, threads: threads(), deadline, max_schedules: 100_000_000, oracles: or.clone(), c03, c04_history: id == "C04" };
             let r = schedeng::explore(&case, &prep, &cfg);
             let capped = r.cap_hit;
             per_phase.push(json!({"phase": ph.label, "executions": r.schedules, "complete": !capped,
@@ -511,6 +511,36 @@ fn check(id: &str, tier: &str) -> i32
             cases.extend(schedeng::failure_cases(tier));
             run_sched_plans(&mut rep, id, cases, phases(tier), Oracles::default());
         },
+        "C11" =>
+        {
+            rep.assume("crash = the file system exactly as it was after some mutation (or after a strict prefix of the bytes of a write); corpus: rule sets whose from-scratch build succeeds; commands write atomically for the content-loss check");
+            crate::crash::run_crash(&mut rep, tier);
+        },
+        "C12" =>
+        {
+            rep.assume("rule sets are built directly as parser-producible Rule values (targets, sources, one command line each)");
+            crate::enum_sort::run(&mut rep, tier);
+        },
+        "C13" =>
+        {
+            rep.assume("modulo SHA-256 collisions; strings are restricted to what the parser can produce (no newline, no empty string, no lone ':')");
+            crate::enum_ident::run(&mut rep, tier);
+        },
+        "C14" =>
+        {
+            rep.assume("reference parser: lines are the pieces between '\\n'; errors are reported in file order; where several bundle defects are present any of them is accepted");
+            crate::enum_parse::run(&mut rep, tier);
+        },
+        "C15" =>
+        {
+            rep.assume("reference SHA-256 and base-62 are the harness's own (no shared code with ruler)");
+            crate::enum_hash::run(&mut rep, tier);
+        },
+        "C16" =>
+        {
+            rep.assume("bincode 1.3 default configuration, as used by ruler");
+            crate::enum_state::run(&mut rep, tier);
+        },
         _ =>
         {
             eprintln!("unknown or unimplemented property {}", id);
@@ -565,6 +595,13 @@ fn replay(path: &str) -> i32
                 0
             }
         },
+        "crash" =>
+        {
+            let rc = crate::crash::replay(r["case"].as_str().unwrap_or(""), r["crash_desc"].as_str().unwrap_or(""), r["what"].as_str().unwrap_or(""));
+            if rc == 1 { println!("VIOLATION property={} replay={}", prop, path); }
+            else if rc == 0 { println!("no violation of {} at this crash point", prop); }
+            rc
+        },
         "sched" =>
         {
             let case = match schedeng::case_by_name(r["case"].as_str().unwrap_or(""))
@@ -603,6 +640,18 @@ fn replay(path: &str) -> i32
                 if key != key2 { hit = true; }
             }
             if hit { println!("VIOLATION property={} replay={}", prop, path); 1 } else { println!("no violation of {} on this schedule", prop); 0 }
+        },
+        "sort" => { let rc = crate::enum_sort::replay(r); if rc == 1 { println!("VIOLATION property={} replay={}", prop, path); } rc },
+        "ident" => { let rc = crate::enum_ident::replay(r); if rc == 1 { println!("VIOLATION property={} replay={}", prop, path); } rc },
+        "parse" => { let rc = crate::enum_parse::replay(r); if rc == 1 { println!("VIOLATION property={} replay={}", prop, path); } rc },
+        "hash" | "state" =>
+        {
+            // these engines are deterministic and fast: re-run the family and look for the same signature
+            let mut rep = Report::new(&prop, "quick");
+            rep.write_evidence = false;
+            if prop == "C15" { crate::enum_hash::run(&mut rep, "quick"); } else { crate::enum_state::run(&mut rep, "quick"); }
+            let sig = v["signature"].as_str().unwrap_or("");
+            if rep.violations.iter().any(|x| x.signature == sig) { println!("{}", v["summary"].as_str().unwrap_or("")); println!("VIOLATION property={} replay={}", prop, path); 1 } else { 0 }
         },
         other =>
         {
